@@ -39,3 +39,5 @@ open Pandora.C11
 #print axioms Pandora.C11KernelsSteps.forLoop_inv
 #print axioms Pandora.C11KernelsSteps.cbcaStep1_generated_eq
 #print axioms Pandora.C11KernelsSteps.cbcaStep3_generated_eq
+#print axioms Pandora.C11KernelsSteps.cbcaStep2_generated_eq
+#print axioms Pandora.C11KernelsSteps.cbcaStep4_generated_eq
